@@ -35,6 +35,9 @@ Grade(sc, sub) ==
 Next == \E sc \in Scripts, sub \in Subs : Grade(sc, sub)
 Spec == Init /\ [][Next]_vars
 
+\* the part of the state the contract speaks about: with it as TLC's VIEW the history variable no longer distinguishes
+\* states, the reachable set is finite and TLC decides the invariant for histories of EVERY length
+StateView == <<dirty, leakSeen>>
 \* C13: at the start of every grading, every slot that grading reads is pristine
 PristineAtStart == leakSeen = {}
 Export == hist # <<>> => PrintT(<<"VP", ToJson([hist |-> hist, leaks |-> leakSeen])>>)
